@@ -521,6 +521,10 @@ func runTLS(t *testing.T, rc *RunCtx) {
 		runTLSResume(t, rc)
 		return
 	}
+	if rc.Param("mode", "") == "daemon" {
+		runDaemonEdge(t, rc, "C19")
+		return
+	}
 	if rc.Param("mode", "") == "portreuse" {
 		runTLSPortReuse(t, rc)
 		return
